@@ -254,6 +254,16 @@ class ClientWorld:
             self.sio = VClient(**opts)
         self.eio = self.sio.eio
         self.eio.world = self
+        # a reconnection effort is STARTED BUT HELD: `_handle_reconnect` is queued and never run, so
+        # the window between the loss and the first attempt stays observable (the effort is C10's)
+        self.held = []
+        world = self
+
+        def hold(target, *a, **k):
+            world.held.append(getattr(target, '__name__', repr(target)))
+            world._rec(['effort'])
+            return _ATask() if world.is_async else _Task()
+        self.sio.start_background_task = hold
         self.registry = registry or {'fns': [], 'classes': []}
         self._install(self.registry)
 
@@ -542,6 +552,7 @@ class ClientWorld:
             'binbuf': s._binary_packet is not None,
             'sid': s.sid,
             'eio': s.eio.state,
+            'effort': bool(s._reconnect_task),
         }
 
     def close(self):
